@@ -131,10 +131,11 @@ theorem max_ops_ge_script_ops (ctx : Ctx) (h160 : Bytes → Bytes) (n : Ms) (ver
    is in `Sat`, has at most `max_stack_items` elements / `max_witness_size` bytes, runs within
    `max_ops`, and `satisfy` returns none when the spending condition is false.
    Proved below: T3 over the fragment set
-     S1 = { 0, 1, pk_k, pk_h, older, after, sha256, hash256, ripemd160, hash160, c:, v:, a:, s:, n:,
-            d:, and_v, and_b, or_b, or_c, or_d, or_i, andor }   (lock times 1 ≤ n < 2^31)
+     S1 = every fragment but the three quorums: { 0, 1, pk_k, pk_h, older, after, sha256, hash256,
+            ripemd160, hash160, a:, s:, c:, d:, v:, j:, n:, and_v, and_b, or_b, or_c, or_d, or_i, andor }
+            (lock times 1 ≤ n < 2^31, non-empty keys, as `_assert_shape` requires)
    for every candidate satisfaction/dissatisfaction of the tables (canonical and overcomplete),
-   against the minimal semantics of Model/C15/Eval.lean.  Missing: j:, multi, multi_a, thresh; the satisfier's choice (`_better`) and
+   against the minimal semantics of Model/C15/Eval.lean.  Missing: multi, multi_a, thresh; the satisfier's choice (`_better`) and
    the bounds. -/
 
 /-- T3_partial: every typed expression of S1 does to the stack what its type promises — "B": a
@@ -179,26 +180,37 @@ theorem satisfaction_accepted_partial (E : EvalEnv) (hsig0 : ∀ k, E.sigOK k []
    fun hs => rejects_of_dsat E hsig0 ctx h160 hH n h hB s hs⟩
 
 /-- T4_partial (the chooser): `satisfy ⊆ Sat` and acceptance.  In an environment where the offered
-    signatures verify and the offered preimages hash to their digests (`EnvOK`), and no digest of the
-    expression is the hash of 32 zero bytes (`zeroOK`: the satisfier's hash dissatisfaction), whatever
-    the modelled `satisfy` (`_computed_input`, `_better`; tied by the `sat` stream) returns for an
-    expression of S1 is a listed satisfaction; hence, for a typed top-level "B" that
-    `is_within_resource_limits` with `max_ops` defined, the interpreter ACCEPTS the compiled script on
-    it (`accepts`: T3's run plus the op-count, script-size, element-size and element-count limits).
-    The interpreter's own limits on the witness (≤ 520 bytes an element, ≤ 1000 elements) are
-    hypotheses here; `satisfy_within_bounds_partial` bounds the witness by `max_stack_items` /
-    `max_witness_size`. -/
+    signatures verify and are no longer than the context's largest (72 / 65 bytes), the offered
+    preimages hash to their digests and the satisfier's reading of the lock times is the
+    interpreter's (`EnvOK`, `SigsSmall`), and no digest of the expression is the hash of 32 zero
+    bytes (`zeroOK`: the satisfier's hash dissatisfaction): whatever the modelled `satisfy`
+    (`_computed_input`, `_better`; tied by the `sat` stream) returns for an expression of S1 is a
+    listed satisfaction whose elements are at most 73 bytes; hence, for a typed top-level "B" that
+    `is_within_resource_limits` with `max_ops` defined, the interpreter ACCEPTS the compiled script
+    on it (`accepts`: T3's run plus the op-count, script-size, element-size and element-count
+    limits).  That the witness has at most 1000 elements is a hypothesis here
+    (`satisfy_within_bounds_partial` bounds it by `max_stack_items` for canonical candidates). -/
 theorem satisfy_accepted_partial (E : EvalEnv) (hsig0 : ∀ k, E.sigOK k [] = false) (ctx : Ctx)
-    (env : SatEnv) (hE : EnvOK E ctx env) (h160 : Bytes → Bytes)
+    (env : SatEnv) (hE : EnvOK E ctx env) (hS : SigsSmall ctx env) (h160 : Bytes → Bytes)
     (hH : ∀ k, E.hashF .hash160 k = h160 k) (hh : ∀ b, (h160 b).length = 20) (n : Ms)
     (h : s1Typed ctx n = true) (hshape : shaped ctx n = true) (hB : (typeOf ctx n).B = true)
     (hlim : withinLimits ctx n = true) (hops : (maxOps ctx n).isSome = true)
     (hz : zeroOK E n = true) (w : List Bytes) (hsat : satisfy ctx env n = .ok w)
-    (h520 : ∀ e ∈ w, e.length ≤ 520) (h1000 : w.length ≤ MAX_STACK_SIZE) :
+    (h1000 : w.length ≤ MAX_STACK_SIZE) :
     Sat E n w.reverse ∧ accepts E ctx (opsOf ctx h160 false n) w.reverse = true := by
-  have hS := satisfy_in_Sat E ctx env hE n (inS1_of_s1Typed ctx n h) hz w hsat
-  exact ⟨hS, accepts_of_sat E hsig0 ctx h160 hH hh n h hshape hB hlim hops _ hS
-    (by intro e he; exact h520 e (List.mem_reverse.mp he)) (by simpa using h1000)⟩
+  have hin := inS1_of_s1Typed ctx n h
+  have hS' := satisfy_in_Sat E ctx env hE hS n hin hshape hz w hsat
+  have hsmall : ∀ e ∈ w, e.length ≤ 520 := by
+    have hst : (inputs ctx env n).sat.stack = some w := by
+      unfold satisfy at hsat
+      cases hs : (inputs ctx env n).sat.stack with
+      | none => simp [hs] at hsat
+      | some v => simp only [hs] at hsat; split at hsat <;> cases hsat; rfl
+    intro e he
+    have := (small_s1 ctx env hS n hin hshape).1 w hst e he
+    omega
+  exact ⟨hS', accepts_of_sat E hsig0 ctx h160 hH hh n h hshape hB hlim hops _ hS'
+    (by intro e he; exact hsmall e (List.mem_reverse.mp he)) (by simpa using h1000)⟩
 
 /-- T4 (bounds), covered set S1: whenever the modelled `satisfy` returns a witness `w` for a typed,
     shaped top-level "B" — the spender's signatures being no longer than the context's largest
